@@ -8,7 +8,7 @@ import re
 from hsa.core import AnalysisError, Repo, Report, body_walk, call_name, dotted, find_assign, kwarg, last_attr, src
 from hsa.fold import UNKNOWN, fold_in
 from hsa.keccak import selector
-from hsa.rules.common import guard_set, if_chain, method_calls
+from hsa.rules.common import csrc, guard_set, if_chain, method_calls
 from hsa.rules.verdicts import check_verdict_sites
 
 EXPLANATION = (
@@ -157,12 +157,12 @@ def r13_3_sign_and_arity(repo: Repo, rep: Report):
     rep.check("R13.3", sg == ["'U' if typ == 'uint256' else 'S'"], m, fn, f"sign = {sg}", "unsigned comparison exactly for uint256, signed otherwise")
     bop = sorted(src(v) for v in find_assign(fn, "bop"))
     rep.check("R13.3", bop == ["operator", "sign + operator"], m, fn, f"bop = {bop}", "tag must be the operator (Eq/NotEq) or sign + operator")
-    ib = [src(v) for v in find_assign(fn, "is_binary")]
+    ib = [csrc(v) for v in find_assign(fn, "is_binary")]
     hl = [src(v) for v in find_assign(fn, "has_log")]
     ty = [src(v) for v in find_assign(fn, "typ")]
-    ok = ib == ["operator not in ['True', 'False']"] and hl == ["len(params) > (2 if is_binary else 1)"] and ty == ["params[0]"]
+    ok = ib == [csrc("operator not in ['True', 'False']")] and hl == ["len(params) > (2 if is_binary else 1)"] and ty == ["params[0]"]
     rep.check("R13.3", ok, m, fn, f"is_binary = {ib}; has_log = {hl}; typ = {ty}", "arity / log detection changed")
-    eqs = [i for i in body_walk(fn) if isinstance(i, ast.If) and src(i.test) == "operator in ['Eq', 'NotEq']"]
+    eqs = [i for i in body_walk(fn) if isinstance(i, ast.If) and csrc(i.test) == csrc("operator in ['Eq', 'NotEq']")]
     rep.check("R13.3", len(eqs) == 1, m, eqs[0] if eqs else fn, "Eq/NotEq keep their tag unsigned/sign-free", "equality must not get a sign prefix")
     rets = [src(r.value) for r in body_walk(fn) if isinstance(r, ast.Return)]
     ok = rets == ["vm_assert_binary(bop, typ, has_log)", "vm_assert_unary(operator == 'True', has_log)"]
@@ -240,8 +240,8 @@ def r13_4_extractors(repo: Repo, rep: Report):
     ok = f is not None and any(isinstance(s, ast.Raise) and "NotImplementedError" in src(s) for s in f.body)
     rep.check("R13.4", ok, m, f or vb, "bytes[] / string[]: raise NotImplementedError", "nested dynamic arrays must be rejected, not compared as words")
     arr = [src(v) for v in find_assign(vb, "arr")]
-    isb = [src(v) for v in find_assign(vb, "is_bytes")]
-    ok = arr == ["typ.endswith('[]')"] and isb == ["typ in ['bytes', 'string']"]
+    isb = [csrc(v) for v in find_assign(vb, "is_bytes")]
+    ok = arr == ["typ.endswith('[]')"] and isb == [csrc("typ in ['bytes', 'string']")]
     rep.check("R13.4", ok, m, vb, f"arr = {arr}; is_bytes = {isb}", "type classification changed")
     _, vu = repo.fn("assertions.vm_assert_unary")
     t = src(vu)
